@@ -32,6 +32,7 @@ type Obl struct {
 	Secs   float64
 	Model  map[string]string
 	Raw    string
+	Agree  int // number of solvers that gave this verdict (thorough tier)
 }
 
 type unsupported struct{ msg string }
